@@ -91,6 +91,15 @@ def specValid (filter : String) : Bool :=
     it.startsWith "user:" || it.startsWith "query:" ||
     ["*", "user", "query", "member-join", "member-leave", "member-failed", "member-update", "member-reap"].contains it
 
+/-- `buf=<n> fl=<m>` → n + m: what the implementation reports as queued for the client -/
+def pendingOf? (impl : String) : Option Nat :=
+  match impl.splitOn " " with
+  | [b, f] =>
+    match (dropPrefix b 4).toNat?, (dropPrefix f 3).toNat? with
+    | some x, some y => if b.startsWith "buf=" && f.startsWith "fl=" then some (x + y) else none
+    | _, _ => none
+  | _ => none
+
 def isSubseq : List Ev → List Ev → Bool
   | [], _ => true
   | _ :: _, [] => false
@@ -112,6 +121,10 @@ def parseRec? (s : String) : Option PRec :=
 def parseRecs? (impl : String) : Option (List PRec) :=
   if impl == "-" then some [] else (impl.splitOn "+").mapM parseRec?
 
+/-- an event occurs more often in `got` than it was fed -/
+def hasDuplicate (got fed : List Ev) : Bool :=
+  got.any fun e => got.count e > fed.count e
+
 def monitorStream (s : St) (impl : String) (final : Bool) : St × Option (String × String) :=
   match parseRecs? impl with
   | none => (s, some ("malformed", impl))
@@ -121,6 +134,8 @@ def monitorStream (s : St) (impl : String) (final : Bool) : St × Option (String
     let s' := { s with got := got }
     if rs.any (·.seq != s.seq) then (s', some ("stream-seq", s!"a record does not carry the stream's seq {s.seq}: {impl}"))
     else if evs.any (fun e => !specWanted s.filter e) then (s', some ("stream-filter", s!"a record does not match the filter: {impl}"))
+    else if hasDuplicate got s.fed then
+      (s', some ("stream-duplicate", s!"an event was streamed more often than it was dispatched (each matching event once): {impl}"))
     else if !isSubseq got (s.fed.filter (specWanted s.filter)) then (s', some ("stream-order", s!"records are not the fed events in order: {impl}"))
     else if final && !s.sendFailed && (s.fed.filter (specWanted s.filter)).length ≤ chanCap && got != s.fed.filter (specWanted s.filter) then
       (s', some ("stream-missing", s!"a matching event was not delivered although the buffer never overflowed"))
@@ -169,8 +184,17 @@ def step (s : St) (op : List String) (impl : String) : LineOut St :=
       let e : Ev := { kind := k, name := nm, id := id }
       let s1 := pickUp { s with es := esStep s.fs chanCap s.es (.arrive e), fed := if s.halted then s.fed else s.fed ++ [e] }
       { state := s1, model := some s!"buf={s1.es.buf.length} fl={s1.held}",
-        monitor := if impl.startsWith "TIMEOUT" && specWanted s.filter e then
-            some ("stream-missing", s!"an event matching the filter never reached the client of an idle stream: {impl}") else none }
+        monitor :=
+          if impl.startsWith "TIMEOUT" && specWanted s.filter e then
+            some ("stream-missing", s!"an event matching the filter never reached the client of an idle stream: {impl}")
+          else match pendingOf? impl with
+            | some pend =>
+              -- own books: matching events dispatched to the open stream, minus the records the client already has
+              let owed := (s1.fed.filter (specWanted s.filter)).length - s.got.length
+              if pend > owed then
+                some ("stream-duplicate", s!"{pend} events are queued for the client but only {owed} matching events are outstanding (each matching event once): {impl}")
+              else none
+            | none => none }
     | _, _ => { state := s, model := some "bad-op" }
   | ["relfail"] =>
     -- the client's connection breaks: the Send of the held event fails, the stream goroutine returns
@@ -242,6 +266,8 @@ def step (s : St) (op : List String) (impl : String) : LineOut St :=
           else if rs.any (·.seq != sq) then some ("stream-seq", s!"a record does not carry the stream's seq {sq}: {impl}")
           else if recEvs.any (fun e => !specWanted full e) then
             some ("stream-filter", s!"a record does not match the filter the client sent ('{full}'): {impl}")
+          else if hasDuplicate recEvs evs then
+            some ("stream-duplicate", s!"an event was streamed more often than it was fired (each matching event once): {impl}")
           else if recEvs != evs.filter (specWanted full) then
             some ("stream-missing", s!"the records are not exactly the events matching '{full}' fired while the stream was open, in order: {impl}")
           else none
